@@ -139,8 +139,8 @@ HARNESSES = [
     Harness(
         "with_coordinates",
         h_with_coordinates,
-        lambda tier, seed: [{"npts": 1}] + ([{"npts": 2}] if tier == "thorough" else []),
-        bounds="as region_only plus 1 (quick) / 2 (thorough) symbolic longitudes in [-180, 360] and latitudes in [-90, 90]",
+        lambda tier, seed: [{"npts": 1}] + ([{"npts": 2}, {"npts": 3}] if tier == "thorough" else []),
+        bounds="as region_only plus 1 (quick) / 2-3 (thorough) symbolic longitudes in [-180, 360] and latitudes in [-90, 90]",
         outside="longitudes exactly on the arc's east end (seam); OUT-FP",
     ),
     Harness("rejects", h_rejects, {"quick": [{}]}, bounds="unconstrained symbolic region and one point"),
